@@ -165,6 +165,21 @@ pub fn run(ctx: &mut Ctx) {
             }
         }
     }
+    // collections and initial values fetched through hard paths
+    for payload in [json!([1, 2, 3]), json!([]), json!(null), json!(["a", [1], {"k": 2}]), json!("ab"), json!(5)] {
+        if !ctx.mine() {
+            continue;
+        }
+        for (name, coll, dd) in al::path_fetches(&payload) {
+            for e in [json!({"var": ""}), json!({"cat": [{"var": ""}, "!"]}), json!({"log": {"var": ""}}), json!({"var": "0"}), json!({"var": "k"})] {
+                ctx.edge();
+                ctx.check(&format!("map:fetch:{}", name), &op("map", vec![coll.clone(), e.clone()]), &dd);
+                ctx.check(&format!("filter:fetch:{}", name), &op("filter", vec![coll.clone(), e.clone()]), &dd);
+            }
+            ctx.check(&format!("reduce:fetch:{}", name), &op("reduce", vec![coll.clone(), json!({"cat": [{"var": "accumulator"}, {"var": "current"}]}), json!("")]), &dd);
+            ctx.check(&format!("reduce:fetch-init:{}", name), &op("reduce", vec![json!([1, 2]), json!({"merge": [{"var": "accumulator"}, {"var": "current"}]}), coll.clone()]), &dd);
+        }
+    }
     // spelling twins far apart in long collections with type-sensitive expressions
     for n in al::size_classes(ctx.tier_thorough) {
         if n > 300 {
